@@ -26,6 +26,8 @@ def ledger_predicate(case, impl, j):
     pf = {}        # pid -> exact cash
     led = {}       # pid -> list of (kind, amount, balance)
     prev = None
+    owner = {}     # order number (n-th accepted submission) -> portfolio it was submitted to
+    nsub = 0
     quoted = {}
     for q in case['quotes']:
         quoted.setdefault(q[0], set()).add(q[1])
@@ -48,7 +50,12 @@ def ledger_predicate(case, impl, j):
         elif ok and op[0] == 'wdpf':
             a = Fraction(op[2]); master += a; pf[op[1]] -= a; money = True
             led[op[1]].append(('withdrawal', a, pf[op[1]]))
+        if ok and op[0] == 'submit':
+            owner[nsub] = op[1]; nsub += 1
         for pid, tx in st['fills']:
+            if len(tx) > 5 and tx[5] in owner and owner[tx[5]] != pid:
+                out.append('%s: the fill of order #%d (%s %s), submitted to portfolio %s, was charged to portfolio %s' % (
+                    w, tx[5], tx[1], tx[0], owner[tx[5]], pid))
             cost = Fraction(tx[3]) * Fraction(tx[1]) + Fraction(tx[4])
             pf[pid] -= cost; money = True
             led[pid].append(('asset_transaction', cost, pf[pid]))
